@@ -160,3 +160,36 @@ def pipeline(tier, rep, calibrate=True):
         rep.cov["modules"]["Callable"]["calibration_events_std"] = ctv["events"]
         rep.cov["modules"]["Callable"]["not_provided_by_std"] = [u[len("UNSUPPORTED "):] for u in cst["unsupported"]]
     return tv, st
+
+
+def replay(path):
+    """Re-execute one saved deviating event on the current tree and validate it again."""
+    j = json.load(open(path))
+    ev = j["event"]
+    have = {"etl": probes("etl")}
+    b = build_drivers(have, std=False)["etl"]
+    d = vlib.workdir("scripts")
+    tp = os.path.join(vlib.workdir("traces"), "callable_replay.ndjson")
+    if ev["fam"] == "ipf":
+        r = vlib.tlc_mc("Callable.tla", "Callable_ipf.cfg", "callable_replay_ipf", 4, "3g")
+        gen = [t for t in r["gen"] if t["op"] != "init"]
+        s0 = json.dumps(S0, sort_keys=True)
+        want = [i for i, t in enumerate(gen) if t["op"] == ev["op"] and t["o"] == ev["o"] and t["x"] == ev["x"] and t["pre"] == ev["pre"]]
+        if not want:
+            raise vlib.ModelFailure("replay: the model has no edge for the saved event")
+        sc, st = vlib.plan_edges(gen, _key, lambda n: n == s0, _call, follow=lambda t: t["op"] in PATH_OPS and t["x"]["m"] == 0)
+        sp = os.path.join(d, "callable_replay.ndjson")
+        vlib.write_scripts([sc[want[0]]], sp)
+        vlib.run([b, "ipf", sp], tp)
+    else:
+        sp = os.path.join(d, "callable_replay.ndjson")
+        case = {k: v for k, v in ev.items() if k not in ("ret", "calls", "inst")}
+        open(sp, "w").write(json.dumps(case) + "\n")
+        vlib.run([b, "cases", sp], tp)
+    tv = vlib.tlc_tv("CallableTrace.tla", "CallableTrace.cfg", tp, "callable_tv_replay")
+    devs = [x for x in tv["deviations"] if not x["kind"].startswith("life")]
+    for x in devs:
+        print("VIOLATION property=C20 replay=%s kind=%s" % (path, x["kind"]))
+    if not devs:
+        print("replay: %d event(s) re-executed, no deviation on the current tree" % tv["events"])
+    return 1 if devs else 0
